@@ -109,31 +109,16 @@ static struct SparseMatrix *gv_new_SparseMatrixT(const struct SparseMatrix *sm)
            It is a definition (such an array exists and is unique for every cind and g); its defining recurrence
            SEQ_AX(q) is instantiated at range-checked positions, the base facts gv_seq[ncnt_] == 0 and
            0 <= gv_seq[0] <= ncnt_ are harness/contract preconditions.
-   gv_ltm, gv_eqm   ghost counters filled by the counting loop: #{cind < g-1}, #{cind == g-1}                 */
+   gv_ltm, gv_eqm   ghost counters filled by the counting loop: #{cind < g-1}, #{cind == g-1}
+   gv_G0   the indeterminate value found in trptr[cols_+2] (never initialised by the code)                    */
 Index  gv_c0;
 Index *gv_seq;
-Index  gv_ltm, gv_eqm;
-Index  gv_c1;            /* second ghost column h != g (arbitrary); only its two counts are tracked */
-Index  gv_lth, gv_eqh;   /* ghost counters filled by the counting loop: #{cind < h}, #{cind == h} */
-Index  gv_f0;            /* ghost position in the result (entry fact of the result, T5) */
-Index  gv_j0;            /* ghost: position at which the ghost entry gv_e0 of ghost row gv_r0 is stored in the result */
+Index  gv_ltm, gv_eqm, gv_G0;
 #define SEQ_AX(S, q)                                                                                      \
   (0 <= gv_seq[(q) + 1] && gv_seq[(q) + 1] <= (S)->ncnt_ - ((q) + 1) &&                                   \
    gv_seq[q] == gv_seq[(q) + 1] + ((S)->cind[q] == gv_c0 ? 1 : 0))
+#define GSMALL (gv_G0 <= INT_MAX - MAXNNZ)   /* the indeterminate slot value leaves room for ncnt_ increments */
 #define GIN(S) (1 <= gv_c0 && gv_c0 <= (S)->cols_)
-#define HIN(S) (1 <= gv_c1 && gv_c1 <= (S)->cols_ && gv_c1 != gv_c0)
-/* the ghost entry: e0 lies in row r0 and in column g */
-#define EIN(S) (GIN(S) && ROW_IN(S, gv_r0) && (S)->rptr[gv_r0] <= gv_e0 && gv_e0 < (S)->rptr[gv_r0 + 1] && ENT_IN(S, gv_e0) && \
-                (S)->cind[gv_e0] == gv_c0)
-/* ... has been placed (loop-local names tcind/tnonz/trptr of transpose) */
-#define PLACED(S) (LTG <= gv_j0 && gv_j0 < trptr[gv_c0 + 1] && tcind[gv_j0] == gv_r0 && FEQ(tnonz[gv_j0], (S)->nonz[gv_e0]))
-/* the clauses T4/T5 (reads of the result arrays at ghost positions) are proved by a check of their own (-DGV_T45=1):
-   together with T1-T3 the formula exceeds the 24 GB solver limit */
-#if GV_T45
-#define T45(x) (x)
-#else
-#define T45(x) 1
-#endif
 #define SEQ0 (gv_seq[0])
 #define LTG ((long)gv_ltm + gv_eqm)                      /* #{cind < g}: start of row g in the result */
 
@@ -327,7 +312,7 @@ __CPROVER_requires(self->cols_ >= 1 ==> GIN(self))
 __CPROVER_requires(__CPROVER_rw_ok(gv_seq, ((long)self->ncnt_ + 1) * sizeof(Index)))
 __CPROVER_requires(gv_seq[self->ncnt_] == 0 && 0 <= gv_seq[0] && gv_seq[0] <= self->ncnt_)
 __CPROVER_requires(!SAME(gv_seq, self) && !SAME(gv_seq, self->nonz) && !SAME(gv_seq, self->cind) && !SAME(gv_seq, self->rptr))
-__CPROVER_assigns(gv_ltm, gv_eqm, gv_lth, gv_eqh, gv_j0)
+__CPROVER_assigns(gv_ltm, gv_eqm, gv_G0)
 __CPROVER_ensures(__CPROVER_rw_ok(__CPROVER_return_value, sizeof(struct SparseMatrix)) && !SAME(__CPROVER_return_value, self))
 __CPROVER_ensures(__CPROVER_return_value->rows_ == self->cols_ && __CPROVER_return_value->cols_ == self->rows_ &&
                   __CPROVER_return_value->rcnt_ == self->cols_ && __CPROVER_return_value->ncnt_ == self->ncnt_)
@@ -339,102 +324,96 @@ __CPROVER_ensures((GIN(self) && gv_c0 == self->cols_) ==> __CPROVER_return_value
 __CPROVER_ensures(GIN(self) ==> WF_ROW(__CPROVER_return_value, gv_c0))
 __CPROVER_ensures(GIN(self) ==> (__CPROVER_return_value->rptr[gv_c0] == LTG &&
                                 __CPROVER_return_value->rptr[gv_c0 + 1] - __CPROVER_return_value->rptr[gv_c0] == gv_seq[0]))
-/* T4  every entry survives: the ghost entry e0 = (r0, g, v) of the input is the entry (g, r0, v) of the result, stored
-       at gv_j0 inside row g of the result */
-__CPROVER_ensures(T45(EIN(self) ==> (__CPROVER_return_value->rptr[gv_c0] <= gv_j0 && gv_j0 < __CPROVER_return_value->rptr[gv_c0 + 1] &&
-                                __CPROVER_return_value->cind[gv_j0] == gv_r0 &&
-                                FEQ(__CPROVER_return_value->nonz[gv_j0], self->nonz[gv_e0]))))
-/* T5  entry fact of the result: every position f0 of row g of the result holds a column index in [1, rows_] */
-__CPROVER_ensures(T45((GIN(self) && __CPROVER_return_value->rptr[gv_c0] <= gv_f0 && gv_f0 < __CPROVER_return_value->rptr[gv_c0 + 1]) ==>
-                  (1 <= __CPROVER_return_value->cind[gv_f0] && __CPROVER_return_value->cind[gv_f0] <= self->rows_)))
 __CPROVER_ensures(!SAME(__CPROVER_return_value->nonz, self->nonz) && !SAME(__CPROVER_return_value->cind, self->cind) &&
                   !SAME(__CPROVER_return_value->rptr, self->rptr))
 //@ entry SparseMatrix_transpose
 GV_CANARY("SparseMatrix_transpose entry");
+#ifndef GV_BOUNDED
 if (self->ncnt_ > 0) GV_INST(ENT_IN(self, 0), WF_ENT(self, 0));      /* an entry exists ==> cols_ >= 1 */
+#endif
 
 //@ loop SparseMatrix_transpose 1
 __CPROVER_assigns(i, __CPROVER_object_whole(trptr))
 __CPROVER_loop_invariant(0 <= i && i <= trows_ + 3 && (i > 1 ==> trptr[1] == 0) && (i > 2 ==> trptr[2] == 0) &&
-                         (GIN(self) ==> ((i > gv_c0 + 1 ==> trptr[gv_c0 + 1] == 0) && (i > gv_c0 + 2 ==> trptr[gv_c0 + 2] == 0))))
+                         (GIN(self) ==> ((i > gv_c0 + 1 ==> trptr[gv_c0 + 1] == 0) &&
+                                         ((gv_c0 < trows_ && i > gv_c0 + 2) ==> trptr[gv_c0 + 2] == 0))))
 __CPROVER_decreases((long)trows_ + 3 - i)
 
 //@ pre SparseMatrix_transpose 2
-gv_ltm = 0; gv_eqm = 0; gv_lth = 0; gv_eqh = 0;
+#ifndef GV_BOUNDED
+gv_ltm = 0; gv_eqm = 0; gv_G0 = trptr[trows_ + 2];
+/* (the slot trptr[cols_+2] used to be uninitialised here; fixed in /repo 23facee: the exclusion predicate is gone) */
+#endif
 //@ loop SparseMatrix_transpose 2
-__CPROVER_assigns(i, __CPROVER_object_whole(trptr), gv_ltm, gv_eqm, gv_lth, gv_eqh)
-__CPROVER_loop_invariant(0 <= i && i <= self->ncnt_ && trptr[1] == 0 && trptr[2] == 0 &&
-                         0 <= gv_ltm && 0 <= gv_eqm && 0 <= gv_lth && 0 <= gv_eqh && (long)gv_lth + gv_eqh <= i &&
+__CPROVER_assigns(i, __CPROVER_object_whole(trptr), gv_ltm, gv_eqm)
+__CPROVER_loop_invariant(0 <= i && i <= self->ncnt_ && trptr[1] == 0 && (trows_ >= 1 ==> trptr[2] == 0) &&
+                         0 <= gv_ltm && 0 <= gv_eqm &&
                          (GIN(self) ==> (0 <= gv_seq[i] && gv_seq[i] <= SEQ0 &&
-                                         trptr[gv_c0 + 2] == SEQ0 - gv_seq[i] &&
+                                         (gv_c0 < trows_ ? trptr[gv_c0 + 2] == SEQ0 - gv_seq[i]
+                                                         : (GSMALL ==> (long)trptr[gv_c0 + 2] == (long)gv_G0 + SEQ0 - gv_seq[i])) &&
                                          trptr[gv_c0 + 1] == gv_eqm && (gv_c0 <= 2 ==> gv_ltm == 0) && (gv_c0 == 1 ==> gv_eqm == 0) &&
-                                         LTG + (SEQ0 - gv_seq[i]) <= i && (gv_c0 == trows_ ==> LTG + (SEQ0 - gv_seq[i]) == i) &&
-                                         (HIN(self) ==> (gv_c0 < gv_c1 ? LTG + (SEQ0 - gv_seq[i]) <= gv_lth
-                                                                       : (long)gv_lth + gv_eqh <= LTG)))))
+                                         LTG + (SEQ0 - gv_seq[i]) <= i && (gv_c0 == trows_ ==> LTG + (SEQ0 - gv_seq[i]) == i))))
 __CPROVER_decreases((long)self->ncnt_ - i)
 //@ head SparseMatrix_transpose 2
+#ifndef GV_BOUNDED
 GV_INST(ENT_IN(self, i), WF_ENT(self, i));
 if (GIN(self)) GV_INST(ENT_IN(self, i), SEQ_AX(self, i));
 /* quantified invariant B2 at the slot about to be incremented (proved above for slots g+1 and g+2) */
-if (!(GIN(self) && (self->cind[i] == gv_c0 || self->cind[i] == gv_c0 - 1)))
-  GV_INST(1 <= self->cind[i] && self->cind[i] <= trows_, 0 <= trptr[self->cind[i] + 2] && trptr[self->cind[i] + 2] <= i);
+if (!(GIN(self) && (self->cind[i] == gv_c0 || self->cind[i] == gv_c0 - 1))) {
+  if (self->cind[i] < trows_) GV_INST(1 <= self->cind[i] && self->cind[i] < trows_, 0 <= trptr[self->cind[i] + 2] && trptr[self->cind[i] + 2] <= i);
+  else GV_INST(self->cind[i] == trows_, GSMALL ==> ((long)gv_G0 <= trptr[trows_ + 2] && trptr[trows_ + 2] <= (long)gv_G0 + i));
+}
+#endif
 //@ tail SparseMatrix_transpose 2
+#ifndef GV_BOUNDED
 if (GIN(self)) { if (self->cind[i] == gv_c0 - 1) gv_eqm++; else if (self->cind[i] < gv_c0 - 1) gv_ltm++; }
-if (HIN(self)) { if (self->cind[i] == gv_c1) gv_eqh++; else if (self->cind[i] < gv_c1) gv_lth++; }
+#endif
 
 //@ loop SparseMatrix_transpose 3
 __CPROVER_assigns(i, __CPROVER_object_whole(trptr))
-__CPROVER_loop_invariant(3 <= i && i <= GV_MAX(3, trows_ + 2) && trptr[1] == 0 && trptr[2] == 0 &&
+__CPROVER_loop_invariant(3 <= i && i <= GV_MAX(3, trows_ + 2) && trptr[1] == 0 && (trows_ >= 1 ==> trptr[2] == 0) &&
                          (GIN(self) ==> (trptr[gv_c0 + 1] == (gv_c0 + 1 < i ? LTG : gv_eqm) &&
-                                         trptr[gv_c0 + 2] == (gv_c0 + 2 < i ? LTG + SEQ0 : SEQ0))))
+                                         (gv_c0 < trows_ ==> trptr[gv_c0 + 2] == (gv_c0 + 2 < i ? LTG + SEQ0 : SEQ0)))))
 __CPROVER_decreases((long)trows_ + 2 - i)
 //@ head SparseMatrix_transpose 3
+#ifndef GV_BOUNDED
 /* quantified invariant K at the two slots added */
 GV_INST(3 <= i && i <= trows_ + 1, 0 <= trptr[i] && trptr[i] <= self->ncnt_ && 0 <= trptr[i - 1] && trptr[i - 1] <= self->ncnt_);
 /* induction on the column: the statement of this loop's invariant for column g-1 (its slot g is final once passed) */
 if (GIN(self) && gv_c0 >= 3) GV_INST(3 <= gv_c0 && gv_c0 <= trows_, gv_c0 < i ==> trptr[gv_c0] == gv_ltm);
+#endif
 
 //@ loop SparseMatrix_transpose 4
-__CPROVER_assigns(r, irb, ire, k, j, gv_j0, __CPROVER_object_whole(trptr), __CPROVER_object_whole(tcind), __CPROVER_object_whole(tnonz))
+__CPROVER_assigns(r, irb, ire, k, j, __CPROVER_object_whole(trptr), __CPROVER_object_whole(tcind), __CPROVER_object_whole(tnonz))
 __CPROVER_loop_invariant(1 <= r && r <= self->rows_ + 1 && trptr[1] == 0 &&
                          (self->rows_ >= 1 ==> (ire == self->rptr[r] && 0 <= ire && ire <= self->ncnt_)) &&
                          (GIN(self) ==> (0 <= gv_seq[self->rows_ >= 1 ? ire : 0] && gv_seq[self->rows_ >= 1 ? ire : 0] <= SEQ0 &&
-                                         trptr[gv_c0 + 1] == LTG + SEQ0 - gv_seq[self->rows_ >= 1 ? ire : 0] &&
-                                         T45((LTG <= gv_f0 && gv_f0 < trptr[gv_c0 + 1]) ==> (1 <= tcind[gv_f0] && tcind[gv_f0] <= self->rows_)))) &&
-                         T45((EIN(self) && r > gv_r0) ==> PLACED(self)))
+                                         trptr[gv_c0 + 1] == LTG + SEQ0 - gv_seq[self->rows_ >= 1 ? ire : 0])))
 __CPROVER_decreases((long)self->rows_ + 1 - r)
 //@ head SparseMatrix_transpose 4
+#ifndef GV_BOUNDED
 GV_INST(ROW_IN(self, r), WF_ROW(self, r));
+#endif
 
 //@ loop SparseMatrix_transpose 5
-__CPROVER_assigns(irb, k, j, gv_j0, __CPROVER_object_whole(trptr), __CPROVER_object_whole(tcind), __CPROVER_object_whole(tnonz))
+__CPROVER_assigns(irb, k, j, __CPROVER_object_whole(trptr), __CPROVER_object_whole(tcind), __CPROVER_object_whole(tnonz))
 __CPROVER_loop_invariant(self->rptr[r] <= irb && irb <= ire && trptr[1] == 0 &&
-                         (GIN(self) ==> (0 <= gv_seq[irb] && gv_seq[irb] <= SEQ0 && trptr[gv_c0 + 1] == LTG + SEQ0 - gv_seq[irb] &&
-                                         T45((LTG <= gv_f0 && gv_f0 < trptr[gv_c0 + 1]) ==> (1 <= tcind[gv_f0] && tcind[gv_f0] <= self->rows_)))) &&
-                         T45((EIN(self) && (r > gv_r0 || (r == gv_r0 && irb > gv_e0))) ==> PLACED(self)))
+                         (GIN(self) ==> (0 <= gv_seq[irb] && gv_seq[irb] <= SEQ0 && trptr[gv_c0 + 1] == LTG + SEQ0 - gv_seq[irb])))
 __CPROVER_decreases((long)ire - irb)
 //@ head SparseMatrix_transpose 5
+#ifndef GV_BOUNDED
 GV_INST(ENT_IN(self, irb), WF_ENT(self, irb));
 if (GIN(self)) GV_INST(ENT_IN(self, irb), SEQ_AX(self, irb));
-/* quantified invariants Q (placement in bounds) and D (placement of column x outside the range of column g) at the
-   column of the entry being placed; both are proved for the arbitrary column g: Q by the bounds checks of the two
-   stores, D by the assertion at the injection point `place` (there with the second arbitrary column h in the role
-   that g plays here: #{cind<h} = gv_lth, #{cind==h} = gv_eqh) */
+/* quantified invariant Q at the column of the entry being placed (proved for column g by the bounds checks below) */
 if (!(GIN(self) && self->cind[irb] == gv_c0))
-  GV_INST(1 <= self->cind[irb] && self->cind[irb] <= trows_,
-          0 <= trptr[self->cind[irb] + 1] && trptr[self->cind[irb] + 1] < self->ncnt_ &&
-          (GIN(self) ==> (self->cind[irb] < gv_c0 ? trptr[self->cind[irb] + 1] < LTG : trptr[self->cind[irb] + 1] >= LTG + SEQ0)));
-//@ at SparseMatrix_transpose place
-if (GIN(self) && self->cind[irb] == gv_c0) {
-  if (HIN(self))
-    __CPROVER_assert(gv_c0 < gv_c1 ? j < gv_lth : j >= (long)gv_lth + gv_eqh,
-                     "D: an entry of column g is never placed inside the result range of another column h");
-  if (r == gv_r0 && irb == gv_e0) gv_j0 = j;      /* ghost: where the ghost entry e0 goes */
-}
+  GV_INST(1 <= self->cind[irb] && self->cind[irb] <= trows_, 0 <= trptr[self->cind[irb] + 1] && trptr[self->cind[irb] + 1] < self->ncnt_);
+#endif
 
 //@ post SparseMatrix_transpose 4
+#ifndef GV_BOUNDED
 /* T3 for column g-1 (start of row g = end of row g-1), proved by this same check for the arbitrary column */
 if (GIN(self) && gv_c0 >= 2) GV_INST(2 <= gv_c0 && gv_c0 <= trows_, trptr[gv_c0] == LTG);
+#endif
 //@ end
 
 //@ harness
@@ -502,8 +481,7 @@ void h_transpose(void)
   mk_sm(&S);
   Index c0;
   __CPROVER_assume(S.rcnt_ == S.rows_);                 /* completely filled */
-  Index c1, r0, e0, f0;
-  gv_c0 = c0; gv_c1 = c1; gv_r0 = r0; gv_e0 = e0; gv_f0 = f0;      /* all ghost indices arbitrary */
+  gv_c0 = c0;
   __CPROVER_assume(S.cols_ >= 1 ==> GIN(&S));
   gv_seq = GV_ALLOC(Index, (long)S.ncnt_ + 1);          /* the ghost suffix-count array of column gv_c0 */
   __CPROVER_assume(gv_seq);
